@@ -164,11 +164,16 @@ func checkC12(c *Ctx) {
 		c.Fail("C12-R1", "crc-failure:exit", pl.getMsg.Pos(), "unresolved", "no CRC-failure exit found in the decoder")
 	}
 	f.ruleNoContentExit("C12-R2")
+	// the leader helper (run on the first five bytes) rejects on leader content only
+	f.ruleRejectionSitesOf("C12-R2", true)
 	// boundaries independent of content: exact count; the decoder's message is returned unchanged;
 	// no push-back other than the junk one
 	conservationRules(f, "C12-R4", consOpts{returns: true, decoderRaw: true, exactCount: true})
 	f.ruleCRCGate("C12-R4")
 	f.ruleStreamForward("C12-R3")
+	// the neighbours' reported times too: a rejected frame must not advance the week state
+	ruleStateOnlyForVerifiedFrames(c, "C12-R5")
+	c.MinInstances("C12-R5", 1)
 	c.MinInstances("C12-R1", 1)
 	c.MinInstances("C12-R2", 3)
 }
